@@ -265,6 +265,36 @@ func genQuery(t *rapid.T) *gripql.GraphQuery {
 				&gripql.GraphStatement{Statement: &gripql.GraphStatement_Increment{Increment: &gripql.Increment{Key: "$a.c", Value: 1}}})
 		}
 	}
+	// templates that put the traversal into a state real requests rarely reach before
+	// the arbitrary statements follow: a traveler without a current element carrying a
+	// mark, or rows that are no elements (count, render, path, aggregation, selection)
+	if len(q.Query) > 0 {
+		switch rapid.IntRange(0, 9).Draw(t, "template") {
+		case 0, 1:
+			nullMove := []*gripql.GraphStatement{
+				{Statement: &gripql.GraphStatement_OutNull{OutNull: genList(t, "tn")}},
+				{Statement: &gripql.GraphStatement_InNull{InNull: genList(t, "tn")}},
+				{Statement: &gripql.GraphStatement_OutENull{OutENull: genList(t, "tn")}},
+				{Statement: &gripql.GraphStatement_InENull{InENull: genList(t, "tn")}},
+				{Statement: &gripql.GraphStatement_Select{Select: &gripql.SelectStatement{Marks: []string{"nope"}}}},
+			}
+			q.Query = append(q.Query, nullMove[rapid.IntRange(0, len(nullMove)-1).Draw(t, "nullMove")],
+				&gripql.GraphStatement{Statement: &gripql.GraphStatement_As{As: rapid.SampledFrom([]string{"a", "b"}).Draw(t, "nullMark")}})
+		case 2, 3:
+			term := []*gripql.GraphStatement{
+				{Statement: &gripql.GraphStatement_Count{}},
+				{Statement: &gripql.GraphStatement_Render{Render: structpb.NewStringValue("_gid")}},
+				{Statement: &gripql.GraphStatement_Path{}},
+				{Statement: &gripql.GraphStatement_Aggregate{Aggregate: &gripql.Aggregations{Aggregations: []*gripql.Aggregate{genAgg(t, "tagg")}}}},
+				{Statement: &gripql.GraphStatement_As{As: "a"}},
+			}
+			k := rapid.IntRange(0, len(term)-1).Draw(t, "terminal")
+			q.Query = append(q.Query, term[k])
+			if k == 4 {
+				q.Query = append(q.Query, &gripql.GraphStatement{Statement: &gripql.GraphStatement_Select{Select: &gripql.SelectStatement{Marks: []string{"a", "a"}}}})
+			}
+		}
+	}
 	for i := 0; i < n; i++ {
 		gs := genStatement(t, i)
 		if rapid.IntRange(0, 29).Draw(t, fmt.Sprintf("nilstmt%d", i)) == 0 {
